@@ -6,9 +6,12 @@ proof  : lean/Pyunicorn/Properties/C18.lean (effective resistance = potential di
 tie    : the Lean model (exact Rat) against ResNetwork on the same generated networks
          (tolerance 1e-7; float32 paths: stated bound), against the compiled current-flow
          kernels at the kernel boundary on exact float32 inputs, and on update/query histories
+         (round 3) complex networks against the field model executed at the Gaussian rationals
+         (`cnet`), histories with a reassigned adjacency against the model's fresh history
 search : exact circuit solve in fractions.Fraction (grounded Laplacian), the circuit laws as
          identities on the implementation's own output, fresh twin objects after every
-         update_resistances, complex impedances against a direct linear solve
+         update_resistances, complex impedances against a direct linear solve, hubs of degree
+         128+ against an independent float64 solve
 """
 import contextlib
 import io
@@ -746,7 +749,9 @@ def run(ctx):
                 "random spanning tree + extra links on 3-"
                 + ("7" if quick else "9") + " nodes; symmetric positive resistances: unit, "
                 "integers 1..10, multiples of 1/8, powers of two x {1,3,5}; int64 and float64 "
-                "arrays; adjacency given or derived from the resistances; distinct = distinct "
+                "arrays (C / Fortran order / strided views); adjacency given or derived from the "
+                "resistances; complex128/complex64 impedance networks; histories with a "
+                "reassigned adjacency; weighted stars with a hub of degree 128+; distinct = distinct "
                 "(adjacency, resistances); non-trivial = at least 3 nodes and not all "
                 "resistances equal")
     ctx.trusted = common.DEFAULT_TRUSTED + [
